@@ -18,7 +18,6 @@ EXTENDS DECore, Json
 
 CONSTANTS Node,        \* set of node ids (naturals)
           MaxTerm, MaxLog, MaxMsgs, Cap,
-          Dev,         \* set of deviation names that are switched on
           Faults,      \* subset of {"Crash","Stop","Drop","Dup","Client","Heartbeat"}
           MaxCrash, MaxDrop,  \* bounds on the number of crash/stop and drop/dup steps per behaviour
           HistOn,      \* TRUE: keep the schedule (hist) for behaviour extraction
@@ -54,6 +53,9 @@ Persist(s) == IF "HardStateSavedOnlyOnDrop" \in Dev THEN s ELSE SaveHs(s)
 Led(n, t) == [n |-> n, t |-> t]
 NoteState(m, nsn) ==
   [m EXCEPT !.led = @ \cup {Led(n, nsn[n].term) : n \in {x \in Node : nsn[x].up /\ nsn[x].role = "L"}},
+            \* a node's vote for itself counts once its candidacy has won
+            !.granted = @ \cup {[voter |-> n, t |-> nsn[n].term, cand |-> n] :
+                                   n \in {x \in Node : nsn[x].up /\ nsn[x].role = "L"}},
             !.committed = @ \cup UNION {{[i |-> e.i, e |-> e, ct |-> nsn[n].term] :
                                             e \in {nsn[n].log[j] : j \in {x \in 1..Len(nsn[n].log) :
                                                        nsn[n].log[x].i <= nsn[n].commit}}}
@@ -107,7 +109,7 @@ StartRound(n) ==
          Q(p) == [ty |-> "VQ", from |-> n, to |-> p, t |-> s.term, li |-> LastIdx(s.log), lt |-> LastTerm(s.log)]
      IN Step([a |-> "StartRound", n |-> n], [ns EXCEPT ![n] = s],
              [rnd EXCEPT ![n] = [open |-> TRUE, pending |-> Peers(n), resp |-> {}]],
-             msgs \cup {Q(p) : p \in Peers(n)} , mon)
+             msgs \cup {Q(p) : p \in Peers(n)}, mon)
 
 \* close the round of candidate c if nothing is pending any more
 AutoFinish(c, nsn, rndn, msgsn, monn, label) ==
